@@ -50,7 +50,9 @@ type c10Party struct {
 	Sess      [][]byte    // exponents of the session's DH keys: key id k ↔ Sess[k-1]
 	SessFrom  int         // number of 40-byte draws that existed when the session was established
 	TheirPubs [][]byte    // the peer's D-H keys as announced to us: key id k ↔ TheirPubs[k-1] (their_keyid = len)
-	Asm       refAsm      // reassembly of fragments delivered to us (to read what they announce)
+	AllOwn    [][]byte    // session keys of earlier sessions (their MAC keys may still be disclosed)
+	AllTheir  [][]byte
+	Asm       refAsm // reassembly of fragments delivered to us (to read what they announce)
 	Ctr       []ref.PairCtr
 	Pending   [][]byte // texts handed to Send that must appear in the data messages of that call
 }
@@ -61,6 +63,7 @@ type monC10 struct {
 	NSMP     int
 	NKey     int
 	NEnd     int
+	NRefresh int
 	Asked    [2]bool
 	Started  bool
 	Checked  int
@@ -292,6 +295,25 @@ func c10CheckData(w *verifWorld, i int, raw []byte, fromSend []byte) (fs []verif
 	if len(d.Revealed)%20 != 0 {
 		bad("data-revealed-length", "old MAC keys field of %d bytes", len(d.Revealed))
 	}
+	// every disclosed value must be a receiving MAC key of the discloser for one of the key pairs the reference knows of
+	for off := 0; off+20 <= len(d.Revealed); off += 20 {
+		rk := d.Revealed[off : off+20]
+		found := false
+		for _, hist := range [][][]byte{me.AllOwn, me.Sess} {
+			for _, own := range hist {
+				for _, their := range append(append([][]byte{}, me.AllTheir...), me.TheirPubs...) {
+					op, tp := c10Pub(own), new(big.Int).SetBytes(their)
+					k := ref.DeriveData(op, tp, new(big.Int).Exp(tp, new(big.Int).SetBytes(own), ref.P))
+					if bytes.Equal(k.RecvMAC, rk) {
+						found = true
+					}
+				}
+			}
+		}
+		if !found {
+			bad("data-revealed-not-a-mac-key", "the old MAC keys field discloses %x…, which is not the receiving MAC key of any key pair of the discloser", rk[:6])
+		}
+	}
 	if int(d.SKeyID) < 1 || int(d.SKeyID) > len(me.Sess) || int(d.RKeyID) < 1 || int(d.RKeyID) > len(me.TheirPubs) {
 		bad("data-keyids", "key ids %d/%d, the sender holds %d own keys and was told about %d keys of the peer", d.SKeyID, d.RKeyID, len(me.Sess), len(me.TheirPubs))
 		return
@@ -432,6 +454,8 @@ func c10Established(w *verifWorld, i int, r verifResult) (fs []verifFinding) {
 	if w.P[i].C.GetSSID() != me.Ex.SSID {
 		fs = append(fs, verifFinding{"C10:ssid", fmt.Sprintf("%s reports SSID %x, the specification derives %x from the shared secret", w.P[i].Name, w.P[i].C.GetSSID(), me.Ex.SSID)})
 	}
+	me.AllOwn = append(me.AllOwn, me.Sess...)
+	me.AllTheir = append(me.AllTheir, me.TheirPubs...)
 	me.Sess = [][]byte{me.Ex.X}
 	me.Ctr = nil
 	me.TheirPubs = [][]byte{me.Ex.Their}
@@ -486,6 +510,9 @@ func verifC10Sys(id string, seed int64) *verifSys {
 		if smp == "smp" {
 			m.NSMP = 1
 		}
+		if smp == "refresh" {
+			m.NRefresh, m.NKey, m.NEnd = 1, 0, 0
+		}
 		w.Mon = m
 		return w
 	}
@@ -514,6 +541,9 @@ func verifC10Sys(id string, seed int64) *verifSys {
 		}
 		if enc && m.NKey > 0 {
 			evs = append(evs, verifEv{K: "extrakey", I: 0})
+		}
+		if enc && m.NRefresh > 0 && len(w.Q[0])+len(w.Q[1]) == 0 {
+			evs = append(evs, verifEv{K: "refresh", I: 1})
 		}
 		if enc && m.NEnd > 0 && m.Budget[0]+m.Budget[1] == 0 {
 			evs = append(evs, verifEv{K: "end", I: 1})
@@ -558,6 +588,14 @@ func verifC10Sys(id string, seed int64) *verifSys {
 					}
 				}
 			}
+		case "refresh":
+			m.NRefresh--
+			verifTick(w.P[0].C)
+			verifTick(w.P[1].C)
+			q := p.Query()
+			fs = append(fs, c10CheckMessage(w, e.I, q, nil)...)
+			w.Q[1-e.I] = append(w.Q[1-e.I], q)
+			return fs
 		case "smpstart":
 			m.NSMP--
 			r = p.StartSMP("q", []byte("s"))
@@ -832,10 +870,10 @@ func init() {
 		Run: func(r *verifReport) {
 			r.Rule = "(a) explicit-state exploration of honest session histories from the query on (one or both sides asking, texts both ways with key rotation, SMP, extra symmetric key, End; fragmented or not; every delivery interleaving): EVERY emitted message is parsed by the independent implementation verifref (standard library only, written from the specification) and re-derived from both sides' secrets, which are found in the logs of the randomness sources by verification (g^d, commitment hash), never by call site: commit hash and ciphertext, D-H key, SSID, c/c', m1/m1', m2/m2', the decrypted signature block (long-term key, key id, DSA signature validity over M), data-message key ids per the specification's ratchet, next D-H key, counter, session keys with the high/low-end rule, MAC, plaintext layout, extra symmetric key, and the whole data message rebuilt byte for byte; (b) a reference peer written from the specification talks to the real conversation in both exchange roles: all interleavings of texts both ways, extra-key requests both ways and End: everything the reference builds must be accepted and read exactly, and vice versa; SSID, fingerprint and extra keys must agree"
 			r.Assumptions = []string{"verifref shares with otr3 only the Go standard library (crypto/dsa, aes, sha, hmac); it does not implement SMP (the SMP proofs are not re-derived independently)", "signature bytes are verified, not re-derived (DSA is randomised)"}
-			idsA := []string{"v3/f0/S2/nosmp", "v2/f0/S1/smp", "v3/f200/S1/nosmp"}
+			idsA := []string{"v3/f0/S2/nosmp", "v2/f0/S1/smp", "v3/f200/S1/nosmp", "v3/f0/S2/refresh", "v2/f0/S1/refresh"}
 			idsB := []string{"peer/v3/refinit/f0/S2", "peer/v3/realinit/f0/S1", "peer/v2/refinit/f0/S1", "peer/v2/realinit/f150/S1"}
 			if r.Tier == "thorough" {
-				idsA = []string{"v2/f150/S1/smp", "v3/f200/S2/nosmp", "v2/f0/S2/smp", "v3/f0/S3/nosmp"}
+				idsA = []string{"v2/f150/S1/smp", "v3/f200/S2/nosmp", "v2/f0/S2/refresh", "v3/f0/S2/refresh", "v2/f0/S2/smp", "v3/f0/S3/nosmp"}
 				idsB = []string{"peer/v3/refinit/f0/S3", "peer/v3/realinit/f0/S3", "peer/v2/refinit/f0/S3", "peer/v2/realinit/f0/S3", "peer/v3/realinit/f150/S2", "peer/v2/refinit/f150/S2"}
 			}
 			for _, id := range idsB {
